@@ -7,6 +7,7 @@ CONSTANTS
   Name = {n1}
   Ctx = {c1}
   Fn = {g1}
+  MethFn = {}
   MaxArg = 1
   MaxOps = 2
   MaxEnv = 1
